@@ -9,6 +9,8 @@ CONSTANTS
   WSubs <- TrWSubs
   Cap <- TrCap
   CheckCap = FALSE
+  LateEm <- TrLateEm
+  DropTrustsCaller = FALSE
 SPECIFICATION TraceSpec
 CONSTRAINT HighWater
 INVARIANTS NoPanic Order ExactlyOnce OnlyAsked StatefulFirst ClosedDetached LocksSane
